@@ -11,6 +11,8 @@ inductive EvOp
   | verify (k : Nat)
   | know (k : Nat) (bs : Bytes)
   | mutate (c : Claims)
+  /-- `ev.SetClaims(ev.Claims)`: the object already attached is attached again -/
+  | reattach
 
 def parseKeys? (s : String) : Option (List (Nat × String)) :=
   allSome ((s.splitOn ",").map fun e =>
@@ -30,6 +32,7 @@ def parseEvOp? (s : String) : Option EvOp :=
   match s.splitOn ":" with
   | ["setclaims", d] => (parseClaims? (d.splitOn "&")).map .setClaims
   | ["mutate", d] => (parseClaims? (d.splitOn "&")).map .mutate
+  | ["reattach"] => some .reattach
   | [kind, k, a, mode, sg] =>
     if kind != "sign" && kind != "vsign" then none else do
       let k ← k.toNat?
@@ -67,6 +70,12 @@ def runEv (kt : KeyTable) : World → Ev → List EvOp → List String → Bool 
       let (s, o) := match r with | .ok _ => ("ok", false) | .err => ("err", false) | .ood => ("ood", true)
       runEv kt w e' rest (s :: acc) (ood || o)
     | .mutate c => runEv kt w { e with claims := some c } rest ("ok" :: acc) ood
+    | .reattach =>
+      match e.claims with
+      | none => runEv kt w e rest ("panic" :: acc) ood
+      | some c =>
+        let (e', r) := evSetClaims e c
+        runEv kt w e' rest ((match r with | .ok _ => "ok" | .err _ => "err" | .panic _ => "panic") :: acc) ood
     | .know k bs => runEv kt (w.know k bs) e rest ("-" :: acc) ood
     | .verify k => runEv kt w e rest (okErrU (evVerify kt w e k) :: acc) ood
 
